@@ -37,6 +37,8 @@ pub struct GenCfg
     pub moves : bool,           // user `mv` onto a target (keeps the old mtime); only sound to demand
                                 // anything about it when distinct writes carry distinct mtimes
     pub prune_dirs : bool,      // the user removes emptied output directories (verdicts are then outside the reference model)
+    pub dir_at_target : bool,   // the user makes a directory at a target's path (verdicts are then outside the reference model)
+    pub dir_leaves : bool,      // a source that is a directory (listing + files below it)
     pub crowds : bool,          // one case in ~250: 40-220 rules (limits, batching, quadratic paths)
     pub outside_leaves : bool,  // leaves spelled "../<target>" or "/<target>": different files whose
                                 // names contain a target's name (never on the real file system)
@@ -72,6 +74,8 @@ impl GenCfg
             soak : false,
             moves : true,
             prune_dirs : false,
+            dir_at_target : false,
+            dir_leaves : true,
             crowds : true,
             outside_leaves : true,
         }
@@ -97,6 +101,7 @@ pub struct Gen
     mib_files : bool,
     crowd : bool,
     extra_dirs : Vec<String>,
+    dir_leaves : Vec<(String, Vec<String>)>,
 }
 
 const LETTERS : &[&str] = &["a", "b", "c", "d", "e", "k", "m", "z"];
@@ -112,6 +117,7 @@ impl Gen
         let odd_names = rng.chance(1, 8);
         let long_names = rng.chance(1, 12);
         let crowd = cfg.crowds && !cfg.soak && rng.chance(1, 250);
+        model::set_dir_leaves(vec![]);
         // files around 1 MiB: only in small graphs (a command's output is the concatenation of its inputs)
         let big_files = big_files && !crowd;    // content grows along dependency paths: keep crowds small-grained
         let mib_files = big_files && rng.chance(1, 10);
@@ -123,6 +129,7 @@ impl Gen
             long_names : long_names,
             crowd : crowd,
             extra_dirs : vec![],
+            dir_leaves : vec![],
             rng : rng,
             cfg : cfg,
             next_name : 0,
@@ -378,6 +385,10 @@ impl Gen
         {
             self.add_twins();
         }
+        if self.cfg.dir_leaves && !self.crowd && !self.cfg.prune_dirs && self.rng.chance(1, 10)
+        {
+            self.add_dir_leaf();
+        }
         if self.cfg.outside_leaves && self.rules.len() >= 2 && self.rng.chance(1, 12)
         {
             self.add_outside_leaf();
@@ -387,6 +398,43 @@ impl Gen
             self.add_hidden();
         }
     }
+
+    /* A source that is a directory: the rule declares the directory, its command reads some of the
+       files below it, in some order. */
+    fn add_dir_leaf(&mut self)
+    {
+        self.next_name += 1;
+        let dir = format!("src{}.d", self.next_name);
+        self.extra_dirs.push(dir.clone());
+        let nested = self.rng.chance(1, 3);
+        if nested { self.extra_dirs.push(format!("{}/sub", dir)); }
+        let n = self.rng.range(2, 3);
+        let mut members = vec![];
+        for i in 0..n
+        {
+            let m = if nested && i == n - 1 { format!("{}/sub/m{}", dir, i) } else { format!("{}/m{}", dir, i) };
+            // a few bytes each, so that bytes can move from one member to its neighbour
+            let c = format!("{}{}", ["ab", "abc", "xyz", "q"][self.rng.below(4) as usize], i).into_bytes();
+            self.files.insert(m.clone(), c);
+            members.push(m);
+        }
+        let k = self.rng.below(self.rules.len() as u64) as usize;
+        let mut r = self.rules[k].clone();
+        r.sources.push(dir.clone());
+        // which members the command reads, and in which order, is the command's business
+        let mut reads : Vec<String> = members.iter().filter(|_| self.rng.chance(2, 3)).cloned().collect();
+        if reads.len() == 0 { reads.push(members[0].clone()); }
+        self.rng.shuffle(&mut reads);
+        for l in r.lines.iter_mut()
+        {
+            if let Line::Emit{ inputs, .. } = l { inputs.extend(reads.iter().cloned()); break; }
+        }
+        self.rules[k] = r;
+        self.dir_leaves.push((dir, members));
+        model::set_dir_leaves(self.dir_leaves.clone());
+    }
+
+    fn is_dir_leaf(&self, s : &str) -> bool { self.dir_leaves.iter().any(|(d, _)| d == s) }
 
     /* A leaf whose spelling contains the whole name of another rule's target behind `..` or `/`:
        "../out/t5" and "/out/t5" are not "out/t5".  Anything that identifies files by a cleaned-up
@@ -621,11 +669,13 @@ impl Gen
                 {
                     let si = self.rng.below(rules[k].sources.len() as u64) as usize;
                     let s = rules[k].sources.remove(si);
+                    let below = format!("{}/", s);
+                    let is_dir = self.is_dir_leaf(&s);
                     for l in rules[k].lines.iter_mut()
                     {
                         match l
                         {
-                            Line::Emit{ inputs, .. } => inputs.retain(|i| *i != s),
+                            Line::Emit{ inputs, .. } => inputs.retain(|i| *i != s && !(is_dir && i.starts_with(&below))),
                             _ => {},
                         }
                     }
@@ -637,7 +687,8 @@ impl Gen
                 // add a target
                 let t = self.fresh_name("t");
                 let salt = self.salt();
-                let input = self.rng.pick(&rules[k].sources).clone();
+                let plain : Vec<String> = rules[k].sources.iter().filter(|s| !self.is_dir_leaf(s)).cloned().collect();
+                let input = if plain.len() > 0 { self.rng.pick(&plain).clone() } else { self.rng.pick(&rules[k].sources).clone() };
                 rules[k].lines.push(Line::Emit{ target : t.clone(), salt : salt, inputs : vec![input], exec : false });
                 rules[k].targets.push(t);
             },
@@ -685,6 +736,26 @@ impl Gen
             // edit or revert a source (the pool has three values per path, so reverts are common)
             let mut cands = self.leaves.clone();
             cands.extend(self.hidden_files.iter().cloned());
+            for (_, ms) in self.dir_leaves.iter() { cands.extend(ms.iter().cloned()); }
+            if self.dir_leaves.len() > 0 && self.rng.chance(1, 4)
+            {
+                // the end of one member moves to the front of the next: same names, same bytes
+                // overall, other files
+                let (_, ms) = self.rng.pick(&self.dir_leaves.clone()).clone();
+                let i = self.rng.below((ms.len() - 1) as u64) as usize;
+                let (a, b) = (self.files.get(&ms[i]).cloned().unwrap_or(vec![]), self.files.get(&ms[i + 1]).cloned().unwrap_or(vec![]));
+                if a.len() >= 2
+                {
+                    let cut = self.rng.range(1, a.len() - 1);
+                    let (na, mut nb) = (a[..cut].to_vec(), a[cut..].to_vec());
+                    nb.extend_from_slice(&b);
+                    self.files.insert(ms[i].clone(), na.clone());
+                    self.files.insert(ms[i + 1].clone(), nb.clone());
+                    ops.push(Op::Write{ path : ms[i].clone(), content : na });
+                    ops.push(Op::Write{ path : ms[i + 1].clone(), content : nb });
+                    return;
+                }
+            }
             let p = self.rng.pick(&cands).clone();
             let mut c = self.content_for(&p);
             if self.cfg.failing && self.rng.chance(1, 12)
@@ -810,7 +881,8 @@ impl Gen
         let mut files : Vec<(String, Vec<u8>)> = self.files.iter().map(|(p, c)| (p.clone(), c.clone())).collect();
         files.push(("README".to_string(), b"bystander".to_vec()));
         let leaf = self.leaves[0].clone();
-        let k = *self.rng.pick(&[20usize, 40, 70, 70, 100, 140]);
+        // (one soak in eight is an old workspace: beyond a thousand, beyond two thousand states)
+        let k = if self.rng.chance(1, 8) { *self.rng.pick(&[1030usize, 2100]) } else { *self.rng.pick(&[20usize, 40, 70, 70, 100, 140]) };
         let mut ops = vec![];
         let state = |i : usize| format!("{}@{}", leaf, i).into_bytes();
         let serial = || SchedSpec{ strategy : Strategy::Serial, seed : 0 };
@@ -869,6 +941,11 @@ impl Gen
                 ops.push(Op::Clean{ goal, sched });
                 if self.cfg.prune_dirs && self.with_dir && self.rng.chance(1, 2) { ops.push(Op::PruneDirs); }
             }
+            else if self.cfg.dir_at_target && roll >= 90 && roll < 96
+            {
+                let ts = self.all_targets();
+                if ts.len() > 0 { let t = self.rng.pick(&ts).clone(); ops.push(Op::DirAt{ path : t }); }
+            }
             else if self.cfg.prune_dirs && self.with_dir && roll >= 96
             {
                 ops.push(if self.rng.chance(1, 2) { Op::PruneDirs } else { Op::MakeDirs });
@@ -895,6 +972,7 @@ impl Gen
             dirs.push("out/deep/er".to_string());
         }
         dirs.extend(self.extra_dirs.iter().cloned());
+        for (d, ms) in self.dir_leaves.iter() { dirs.push(format!("@dirleaf={}:{}", d, ms.join(","))); }
         // configuration: where ruler keeps its state and what the rules files are called
         if self.rng.chance(1, 4)
         {
